@@ -59,7 +59,7 @@ func GenInit(t *rapid.T, o Opts) []h.Spec {
 
 var arithOps = []string{"add", "add", "sub", "sub", "mul", "mul", "quo", "quo", "fma", "sqrt", "set", "neg", "abs", "copy"}
 var attrOps = []string{"setprec", "setprec", "setmode", "setinf", "setmantexp", "setmantexp", "mantexp"}
-var setterOps = []string{"setint", "setint64", "setuint64", "setrat", "setfloat64", "setfloat", "parse", "parse", "setstring", "unmarshaltext", "scan", "gob", "gob", "setbitsexp", "setbitsexp-own"}
+var setterOps = []string{"setint", "setint64", "setuint64", "setrat", "setfloat64", "setfloat", "parse", "parse", "setstring", "unmarshaltext", "scan", "gob", "gob", "setbitsexp", "setbitsexp-own", "setbitsexp-edit"}
 
 // lowExp: exponent of the least significant stored digit position of a finite snapshot.
 func lowExp(s h.Snap) int64 { return int64(s.RawExp) - int64(len(s.Words))*h.DW }
@@ -102,7 +102,7 @@ func Draw(t *rapid.T, m *Machine, o Opts) Step {
 		pool = setterOps
 	}
 	s.Op = rapid.SampledFrom(pool).Draw(t, "op")
-	if o.NoRawBits && (s.Op == "setbitsexp" || s.Op == "setbitsexp-own") {
+	if o.NoRawBits && (s.Op == "setbitsexp" || s.Op == "setbitsexp-own" || s.Op == "setbitsexp-edit") {
 		s.Op = "setint64"
 	}
 	zp := snaps[s.Z].Prec
@@ -277,7 +277,7 @@ func Draw(t *rapid.T, m *Machine, o Opts) Step {
 		}
 	case "parse", "setstring", "unmarshaltext", "scan":
 		if rapid.IntRange(0, 4).Draw(t, "lit.cls") == 0 {
-			s.S = rapid.SampledFrom([]string{"Inf", "-Inf", "+inf", "0x1.8p3", "0b1011e2", "0o17", "1_000.5e-3", "0x_Ap-2", ".5", "5.", "1e", "_1", "1__0", "0x", "", "-", "1e99999999999", "1e-2147483648", "9e2147483646", "0.1e2147483647", "0x1p-1074", "0b.1p-10", "<nil>", "NaN", "null", "--Inf"}).Draw(t, "lit.fixed")
+			s.S = rapid.SampledFrom([]string{"Inf", "-Inf", "+inf", "0x1.8p3", "0b1011e2", "0o17", "1_000.5e-3", "0x_Ap-2", ".5", "5.", "1e", "_1", "1__0", "0x", "", "-", "1e99999999999", "1e-2147483648", "9e2147483646", "0.1e2147483647", "0x1p-1074", "0b.1p-10", "<nil>", "NaN", "null", "--Inf", "0x12345p3000000000", "123456789012345678901234567890p-7200000000", "0x.123456789abcdefp-9223372036854775808", "1.5p2147483648"}).Draw(t, "lit.fixed")
 		} else {
 			s.S = h.GenDecLiteral(t, "lit", 80, true).S
 		}
@@ -317,6 +317,11 @@ func Draw(t *rapid.T, m *Machine, o Opts) Step {
 		}
 	case "setbitsexp-own":
 		s.Exp = h.GenExp(t, "w.exp")
+	case "setbitsexp-edit":
+		// the receiver's own slice with its top word overwritten in place (a value below 10^18, or zero): same slice
+		// header, different contents
+		s.Exp = h.GenExp(t, "w.exp")
+		s.W = []uint64{rapid.SampledFrom([]uint64{0, 1, 12345, h.Base/10 - 1, 999999999999, h.Base / 100}).Draw(t, "w.top")}
 	}
 	return s
 }
